@@ -43,6 +43,29 @@ def ensure_dirs():
         os.makedirs(d, exist_ok=True)
 
 
+def ensure_dev_full():
+    """/dev/full must be the kernel's full device (C16 saves to it).  A library under test that writes somewhere
+    else and renames over the output path can have replaced it by a regular file in an earlier run: put it back.
+    Returns (ok, note)."""
+    import stat
+    def is_dev():
+        try:
+            return stat.S_ISCHR(os.stat("/dev/full").st_mode)
+        except OSError:
+            return False
+    if is_dev():
+        return True, ""
+    try:
+        for f in ("/dev/full", "/dev/full.tmp"):
+            if os.path.lexists(f):
+                os.remove(f)
+        os.mknod("/dev/full", 0o666 | stat.S_IFCHR, os.makedev(1, 7))
+        os.chmod("/dev/full", 0o666)
+    except OSError as e:
+        return False, "/dev/full is not a character device and cannot be recreated: %s" % e
+    return is_dev(), "/dev/full had been replaced by something else (an earlier run of a changed library?): recreated"
+
+
 # ---------------------------------------------------------------- tie A
 def regenerate_ties():
     """Regenerate coq/Gen_abi.v and coq/Gen_leaf.v from /repo (write-if-changed).
